@@ -73,6 +73,15 @@ pub fn voteresp_step(s: &mut Src, sh: &Shape, from: u64, resp_pre: bool, reject:
         assert!(r.raft_log.last_index() == g.last() + 1 && r.raft_log.last_term() == term0);
         assert!(r.pending_conf_index == g.last());
         assert!(r.prs().get(ME).unwrap().matched == g.persisted);
+        // a new leader knows nothing about what its peers hold
+        let (ids, n) = sh.ids();
+        let mut i = 0;
+        while i < n {
+            if ids[i] != ME {
+                assert!(r.prs().get(ids[i]).unwrap().matched == 0, "new leader starts with stale acknowledgements");
+            }
+            i += 1;
+        }
         check_leader_msgs(&r, sh);
     } else {
         assert!(r.raft_log.last_index() == g.last());
